@@ -30,6 +30,7 @@ func init() {
 			{ID: "R17c", Floor: 1, Doc: "symlink-following sinks need a final-component guard (Lstat) in the sanitiser and no symlink just created at that path", Run: ruleR17c},
 			{ID: "R17e", Floor: 1, Doc: "the extractor never removes or replaces an existing path (= R18f)", Run: ruleR18f},
 			{ID: "R17f", Floor: 3, Doc: "a refused path is not handed out and the refusal is what gets tested: every error return of resolvePath carries the empty path, and every caller tests (or returns) the error of resolvePath itself before anything else is assigned to that variable", Run: ruleR17f},
+			{ID: "R17h", Floor: 1, Doc: "the output directory is resolved as the user spelled it: filepath.EvalSymlinks is given the parameter itself, not a lexically cleaned form of it", Run: ruleR17h},
 		},
 	})
 }
